@@ -35,19 +35,67 @@ class HRoot:
     class Meta:
         namespace = NS_M
 
+    pre: list[HKid] = field(default_factory=list, metadata={"type": "Element"})      # decoys in front of the chain (scoping_doc)
     items: list[QName] = field(default_factory=list, metadata={"type": "Element", "name": "q", "wrapper": "wrap"})
     kid: Optional[HKid] = field(default=None, metadata={"type": "Element"})
+
+
+@dataclass
+class DItem:
+    class Meta:
+        namespace = ""
+
+    value: Optional[str] = field(default=None, metadata={"type": "Element"})
+    ref: Optional[QName] = field(default=None, metadata={"type": "Attribute"})
+
+
+@dataclass
+class DRoot:
+    """qualified root, UNQUALIFIED children: in a document that uses a default namespace they reset it (xmlns="")"""
+
+    class Meta:
+        namespace = NS_M
+
+    q: Optional[QName] = field(default=None, metadata={"type": "Element", "namespace": ""})
+    qs: list[QName] = field(default_factory=list, metadata={"type": "Element", "namespace": ""})
+    item: Optional[DItem] = field(default=None, metadata={"type": "Element", "namespace": ""})
+    own: Optional[QName] = field(default=None, metadata={"type": "Element"})
+
+
+def default_ns_docs():
+    """(document, expected object): the root's namespace is the DEFAULT namespace, unqualified children switch it off;
+    unprefixed QName values inside them have no namespace, inside qualified elements they take the default one."""
+    docs = []
+    for own in (None, "z"):
+        for item in (False, True):
+            body = '<q xmlns="">foo</q><qs xmlns="">a</qs><qs xmlns="">b</qs>'
+            exp = DRoot(q=QName("foo"), qs=[QName("a"), QName("b")])
+            if item:
+                body += '<item xmlns="" ref="r"><value>v</value></item>'
+                exp.item = DItem(value="v", ref=QName("r"))
+            if own:
+                body += f"<own>{own}</own>"
+                exp.own = QName(NS_M, own)
+            docs.append((f'<DRoot xmlns="{NS_M}">{body}</DRoot>', exp))
+    return docs
 
 
 def decl_text(decls) -> str:
     return "".join(f' xmlns{":" + p if p else ""}="{u}"' for p, u in decls)
 
 
-def scoping_doc(levels, prefix: str) -> str:
+def scoping_doc(levels, prefix: str, decoys: bool = False) -> str:
+    """decoys: two SIBLING subtrees in front of the chain that carry the very declarations of the chain's middle and
+    leaf elements, in another scope (directly under the root).  Declarations end with the element that makes them, so
+    the expected values are those of the document without decoys."""
     mid = "wrap" if levels[1]["kind"] == "wrapper" else "kid"
     val = f"{prefix}:x" if prefix else "x"
+    pre = ""
+    if decoys:
+        pre = (f'<m:pre{decl_text(levels[2]["decls"])}><m:q>m:d1</m:q></m:pre>'
+               f'<m:pre{decl_text(levels[1]["decls"])}><m:q{decl_text(levels[2]["decls"])}>m:d2</m:q></m:pre>')
     return (
-        f'<m:HRoot xmlns:m="{NS_M}"{decl_text(levels[0]["decls"])}>'
+        f'<m:HRoot xmlns:m="{NS_M}"{decl_text(levels[0]["decls"])}>{pre}'
         f'<m:{mid}{decl_text(levels[1]["decls"])}><m:q{decl_text(levels[2]["decls"])}>{val}</m:q></m:{mid}></m:HRoot>'
     )
 
@@ -58,9 +106,10 @@ def leaf_value(obj):
     return obj.kid.q if obj.kid else None
 
 
-def parse(text, handler: str, ctx=None, clazz=HRoot, source_kind="str", config=None):
-    """Parse through one handler from one kind of source.  -> (status, value, n_warnings)"""
-    parser = XmlParser(context=ctx or XmlContext(), handler=HANDLERS[handler], config=config or ParserConfig())
+def parse(text, handler: str, ctx=None, clazz=HRoot, source_kind="str", config=None, parser=None):
+    """Parse through one handler from one kind of source.  -> (status, value, n_warnings)
+    parser: an existing XmlParser to REUSE (its namespace recorder then holds what earlier documents left)."""
+    parser = parser or XmlParser(context=ctx or XmlContext(), handler=HANDLERS[handler], config=config or ParserConfig())
     data = text.encode("utf-8") if isinstance(text, str) else text
     tmp = None
     with warnings.catch_warnings(record=True) as w:
